@@ -10,7 +10,7 @@ type Labeled struct {
 	Spec  *Spec
 }
 
-func prim(p string) TypeExpr               { return TypeExpr{Prim: p} }
+func prim(p string) TypeExpr                    { return TypeExpr{Prim: p} }
 func ref(app []string, path ...string) TypeExpr { return TypeExpr{RefApp: app, Ref: path} }
 
 // support apps that references point to
